@@ -60,3 +60,7 @@ func pushNode(ctx context.Context, rc *regclient.RegClient, base string, n *gen.
 	}
 	return rc.ManifestPut(ctx, r, m, opts...)
 }
+
+type refT = ref.Ref
+
+func refParse(s string) (ref.Ref, error) { return ref.New(s) }
